@@ -98,7 +98,7 @@ Theorem norm_sound v (ok : val_ok v) e :
   then_free e = true -> expr_wf e ->
   match norm e with
   | Some cs => cs <> [] /\ cset_wf cs /\
-               exists e', strip e = Some e' /\ then_free e' = true /\ eval_set v cs = bsem v e' 0%N
+               exists e', strip e = Some e' /\ then_free e' = true /\ eval_set v cs = bsem v e' (v_start v)
   | None => strip e = None
   end.
 Proof.
